@@ -123,8 +123,10 @@ const Fmt *find_format_name (const std::string &name)
 }
 
 int lossless_lowzero (const Fmt &f, int T)
-{	if (f.is_float) return T == T_FLOAT ? 0 : -1 ;
-	if (f.is_double) return (T == T_FLOAT || T == T_DOUBLE) ? 0 : -1 ;
+{	// IEEE encodings also carry integers exactly under the default scaling: a double holds every 32-bit integer, a float every
+	// 16-bit one and every 32-bit one whose low 8 bits are zero (24 significant bits)
+	if (f.is_float) return (T == T_FLOAT || T == T_SHORT) ? 0 : T == T_INT ? 8 : -1 ;
+	if (f.is_double) return T == T_DOUBLE || T == T_FLOAT || T == T_SHORT || T == T_INT ? 0 : -1 ;
 	if (f.bits == 0) return -1 ;
 	if (T == T_SHORT) return f.bits >= 16 ? 0 : 16 - f.bits ;
 	if (T == T_INT) return 32 - f.bits ;
